@@ -40,3 +40,21 @@ def check_with_retry(o, timeout_ms):
             return r2
         return r2
     return r
+
+
+def check_canary(o, timeout_ms=3000):
+    """vacuity guard: at least one alternative fact set must be satisfiable (sat or unknown);
+    all unsat = the contract's assumptions are contradictory / no exit is reachable"""
+    t0 = time.time()
+    status = "vacuous"
+    for facts in o.extra.get("alts", []):
+        s = z3.Solver()
+        s.set("timeout", timeout_ms)
+        s.add(*facts)
+        r = s.check()
+        if r == z3.sat:
+            status = "reachable"
+            break
+        if r == z3.unknown:
+            status = "reachable?"
+    return {"status": status, "time": time.time() - t0, "solver": "z3-" + z3.get_version_string(), "model": None}
